@@ -90,6 +90,12 @@ func main() {
 		}
 		check(t, "predefs")
 	}
+	rx.BracketSpaceU(nb, func(a *regexref.Atom) { check(rx.AtomExpr(a), "bracket_contents_beyond_ascii") })
+	kw := 5
+	if !r.Quick() {
+		kw = 7
+	}
+	rx.KeywordSpace(kw, check)
 	if !r.Quick() {
 		rx.DeepSpace(check)
 	}
